@@ -1,0 +1,20 @@
+//go:build verif
+
+package aws
+
+import (
+	"github.com/aws/aws-sdk-go/service/autoscaling/autoscalingiface"
+	"github.com/aws/aws-sdk-go/service/ec2/ec2iface"
+)
+
+// VerifNewCloudProvider builds the same CloudProvider value Builder.Build
+// constructs, over injected service clients instead of a real AWS session.
+// Only compiled with the `verif` build tag; used by the deterministic
+// simulation harness in /verif.
+func VerifNewCloudProvider(service autoscalingiface.AutoScalingAPI, ec2Service ec2iface.EC2API) *CloudProvider {
+	return &CloudProvider{
+		service:    service,
+		ec2Service: ec2Service,
+		nodeGroups: make(map[string]*NodeGroup),
+	}
+}
